@@ -3,8 +3,9 @@
 worktree and refresh seeded/<id>/meta.json["caught_by"]; prints a table.  usage: tools/reseed.py [id-prefix ...]"""
 import json, os, subprocess, sys, tempfile, glob
 V = os.path.dirname(os.path.dirname(os.path.abspath(__file__)))
-sel = sys.argv[1:]
+sel = [a for a in sys.argv[1:] if not a.startswith("--")]
 rows = []
+touched = set()
 for d in sorted(glob.glob(V + "/seeded/*")):
     sid = os.path.basename(d)
     if sel and not any(sid.startswith(s) for s in sel):
@@ -25,6 +26,7 @@ for d in sorted(glob.glob(V + "/seeded/*")):
             meta["ported_to_current_tree"] = True
         caught = {}
         for pid in pids:
+            touched.add(pid)
             c = subprocess.run(["./check", pid], cwd=V, env=dict(os.environ, NFCPY_REPO=wt), stdout=subprocess.PIPE,
                                stderr=subprocess.STDOUT, text=True, timeout=3600)
             v = [l for l in c.stdout.split("\n") if l.startswith("VIOLATION")]
@@ -35,7 +37,8 @@ for d in sorted(glob.glob(V + "/seeded/*")):
                      "; ".join((x["violation"] or "").replace("VIOLATION property=", "") for x in caught.values())))
     finally:
         subprocess.run("git -C /repo worktree remove --force %s" % wt, shell=True, stdout=subprocess.DEVNULL, stderr=subprocess.DEVNULL)
-for pid in sorted({p for d in glob.glob(V + "/seeded/*") for p in [json.load(open(d + "/meta.json"))["property"]]}):
-    subprocess.run(["./check", pid], cwd=V, stdout=subprocess.DEVNULL, stderr=subprocess.DEVNULL)   # restore evidence from /repo
+if "--no-restore" not in sys.argv:
+    for pid in sorted(touched):
+        subprocess.run(["./check", pid], cwd=V, stdout=subprocess.DEVNULL, stderr=subprocess.DEVNULL)   # restore evidence from /repo
 for r in rows:
     print("%-10s %-28s %s" % r)
